@@ -404,14 +404,20 @@ func runScript(sc *script, r *res.Result) (string, string, int) {
 		return true
 	}
 	// startRead launches a Read and returns a channel with its result plus the goroutine id
+	zeroBuf := false // the next read uses an empty destination (only where a passed deadline must make it fail anyway)
 	startRead := func() (chan readRes, *int64) {
 		ch := make(chan readRes, 1)
+		blen := 128
+		if zeroBuf {
+			blen, zeroBuf = 0, false
+			r.Count("reads_with_empty_destination_after_expiry", 1)
+		}
 		var id int64
 		ready := make(chan struct{})
 		go func() {
 			id = gstate.GoID()
 			close(ready)
-			buf := make([]byte, 128)
+			buf := make([]byte, blen)
 			n, err := sub.Read(buf)
 			ch <- readRes{n, err, append([]byte{}, buf[:max(n, 0)]...), time.Now()}
 		}()
@@ -542,6 +548,7 @@ func runScript(sc *script, r *res.Result) (string, string, int) {
 			}
 			setsFrom := len(sets) - 1
 			tCall := time.Now()
+			zeroBuf = cur.kind == "past" && i%2 == 0 // a passed deadline fails every read, whatever its destination
 			ch, id := startRead()
 			hadData := len(pending) > 0
 			rr, k, d := waitRead(i, ch, id, func() (bool, string) {
